@@ -319,5 +319,6 @@ def run(chk, ctx):
     c04.r3(chk, ctx)                                         # correlation keys are unique per event: results land in the join of the iteration that asked
     round3.terminated_range(chk, ctx)
     round3.tidy_up_callers(chk, ctx)
+    round3.pending_marker_not_data(chk, ctx)
     round3.sentinel_guard(chk, ctx)
     chk.assume("one terminal event per branch reaches the join (C02/C03 clauses); indexed writes to distinct slots commute")
